@@ -91,24 +91,24 @@ type SimWrite struct {
 
 // SimRequest is one request as seen by the simulated server.
 type SimRequest struct {
-	ID       int
-	Agent    string // kv meta dcp
-	Kind     string
-	Key      string
-	Vb       uint16
-	Replica  int
-	Node     int
-	Deadline int64
-	Issued   int64
-	Args     []uint64 // OpenStream positional arguments: flags vbuuid start end snapStart snapEnd
-	Note     any      // harness annotation (set by OnDispatch)
-	Answer   string   // what the server did with it
-	Applied  bool
-	Err      error
-	Result   any   // what the server answered (set when the request completes successfully)
-	Finished int64 // virtual time at which the callback ran (0 = never)
-	IssuedOrder, FinishedOrder int // global event order stamps
-	Cancelled bool
+	ID                         int
+	Agent                      string // kv meta dcp
+	Kind                       string
+	Key                        string
+	Vb                         uint16
+	Replica                    int
+	Node                       int
+	Deadline                   int64
+	Issued                     int64
+	Args                       []uint64 // OpenStream positional arguments: flags vbuuid start end snapStart snapEnd
+	Note                       any      // harness annotation (set by OnDispatch)
+	Answer                     string   // what the server did with it
+	Applied                    bool
+	Err                        error
+	Result                     any   // what the server answered (set when the request completes successfully)
+	Finished                   int64 // virtual time at which the callback ran (0 = never)
+	IssuedOrder, FinishedOrder int   // global event order stamps
+	Cancelled                  bool
 
 	done   bool
 	exec   func() (any, error)
@@ -172,11 +172,11 @@ type SimCluster struct {
 	// OnApply is called right after a KV write has been applied.
 	OnApply func(w *SimWrite)
 
-	Requests []*SimRequest
-	Writes   []SimWrite
-	reqSeq   int
-	order    int
-	agents   []*simAgent
+	Requests   []*SimRequest
+	Writes     []SimWrite
+	reqSeq     int
+	order      int
+	agents     []*simAgent
 	DcpConfigs []DCPConfig
 }
 
@@ -413,6 +413,13 @@ func (c *SimCluster) EndStream(vbid uint16, err error) bool {
 	return true
 }
 
+// KillStream drops the stream of a vBucket on the server side without any notification to the client.
+func (c *SimCluster) KillStream(vbid uint16) {
+	if st := c.Vb[vbid].stream; st != nil {
+		st.open = false
+	}
+}
+
 // StreamOpen reports whether the server currently has a stream for the vBucket.
 func (c *SimCluster) StreamOpen(vbid uint16) bool {
 	st := c.Vb[vbid].stream
@@ -469,8 +476,8 @@ func (c *SimCluster) snapshot(bucket string) *ConfigSnapshot {
 	return &ConfigSnapshot{state: st}
 }
 
-func (s *ConfigSnapshot) RevID() int64            { return s.state.routeCfg.revID }
-func (s *ConfigSnapshot) BucketUUID() string      { return s.state.uuid }
+func (s *ConfigSnapshot) RevID() int64              { return s.state.routeCfg.revID }
+func (s *ConfigSnapshot) BucketUUID() string        { return s.state.uuid }
 func (s *ConfigSnapshot) NumVbuckets() (int, error) { return len(s.state.vbMap), nil }
 func (s *ConfigSnapshot) NumReplicas() (int, error) { return s.state.replicas, nil }
 func (s *ConfigSnapshot) NumServers() (int, error)  { return s.state.servers, nil }
